@@ -111,6 +111,14 @@ func layoutStorage(texts []string, ids []int) (*filterlist.RuleStorage, error) {
 	if layoutCounter%5 == 2 {
 		texts, ids = withRulelessLists(texts, ids)
 	}
+	// every seventh storage has CRLF line ends: where a line ends is the list layer's business, what it says is not
+	if layoutCounter%7 == 3 {
+		crlf := make([]string, len(texts))
+		for i, t := range texts {
+			crlf[i] = strings.ReplaceAll(strings.ReplaceAll(t, "\r\n", "\n"), "\n", "\r\n")
+		}
+		texts = crlf
+	}
 	var ls []filterlist.RuleList
 	var cleanup func()
 	if variant >= 4 {
@@ -120,7 +128,7 @@ func layoutStorage(texts []string, ids []int) (*filterlist.RuleStorage, error) {
 		}
 		cleanup = func() { _ = os.RemoveAll(dir) }
 		for i, t := range texts {
-			t = strings.TrimSuffix(t, "\n")
+			t = strings.TrimSuffix(strings.TrimSuffix(t, "\n"), "\r")
 			if variant == 4 {
 				t += "\n"
 			}
@@ -138,7 +146,7 @@ func layoutStorage(texts []string, ids []int) (*filterlist.RuleStorage, error) {
 		}
 	} else {
 		for i, t := range texts {
-			t = strings.TrimSuffix(t, "\n")
+			t = strings.TrimSuffix(strings.TrimSuffix(t, "\n"), "\r")
 			if variant != 3 {
 				t += "\n"
 			}
